@@ -11,7 +11,7 @@ from clastic import Application, Route
 
 from sim.core.base import Check, RunResult, Streams, InvalidPlan, canon
 from sim.core.gateway import make_environ, call_app
-from sim.worlds.chain import RT, make_function, make_mw_type, EXC_TYPES, OnionModel
+from sim.worlds.chain import RT, make_function, make_mw_type, EXC_TYPES, OnionModel, DEFAULT
 
 LAYER_BEHS = ['raise_before', 'raise_after', 'return_early', 'swallow']
 PHASES = ('request', 'endpoint', 'render')
@@ -22,8 +22,57 @@ PHASES = ('request', 'endpoint', 'render')
 
 def instances(cfg):
     def lvl(tag, lst):
-        return [{'name': '%s%d:%s' % (tag, i, t), 'type': t} for i, t in enumerate(lst or [])]
+        # a 'shared' type is ONE instance listed wherever the type appears; a type with static hooks hands out the
+        # same function objects from every instance: either way the same hook sits at several positions
+        return [{'name': ('sh:%s' % t) if shared_name(cfg, t) else '%s%d:%s' % (tag, i, t), 'type': t}
+                for i, t in enumerate(lst or [])]
     return lvl('o', cfg['outer']), (lvl('s', cfg['sub']) if cfg.get('sub') is not None else None), lvl('r', cfg['route'])
+
+
+def shared_name(cfg, t):
+    spec = cfg['types'][t]
+    return bool(spec.get('shared')) or spec.get('hooks') == 'static'
+
+
+def type_funcs(cfg, t):
+    """phase -> signature spec of the type's hook.  With a 'wiring' one type provides a name from its request hook and
+    other types (which provide nothing) declare that name with a default in some of their hooks."""
+    spec = cfg['types'][t]
+    w = cfg.get('wiring') or {}
+    out = {}
+    for ph in spec['phases']:
+        f = {}
+        if w.get('provider') == t and ph == 'request':
+            f['provides'] = [w['name']]
+        if ph in (w.get('consumers') or {}).get(t, []):
+            f['opt'] = [w['name']]
+        out[ph] = f
+    return out
+
+
+def wiring_expectation(cfg, target):
+    """{layer function name: [expected value kind per call, in call order]} for the wired name: 'default' where no
+    source offers it at that layer (the provider is further in, or absent), else the provider's layer name."""
+    w = cfg.get('wiring')
+    if not w:
+        return {}
+    order = merged_order(cfg if target == 'x' else dict(cfg, route=[]))
+    pidx = [i for i, m in enumerate(order) if m['type'] == w['provider']]
+    out = {}
+    for i, m in enumerate(order):
+        for ph in w['consumers'].get(m['type'], []):
+            if ph not in cfg['types'][m['type']]['phases']:
+                continue
+            if not pidx:
+                exp = 'default'
+            elif ph == 'request':
+                exp = order[pidx[0]]['name'] if pidx[0] < i else 'default'
+            else:
+                exp = order[pidx[0]]['name']
+            out.setdefault(m['name'] + '.' + ph, []).append(exp)
+    if w.get('ep'):
+        out['EP'] = [order[pidx[0]]['name'] if pidx else 'default']
+    return out
 
 
 def merge(cfg, old, new):
@@ -70,14 +119,24 @@ def model_run(cfg, faults, target='x'):
 def build_app(cfg):
     classes = {}
     for t, spec in sorted(cfg['types'].items()):      # a base type has a smaller index than its subclasses
-        classes[t] = make_mw_type('C03' + t, spec['unique'], spec['reorderable'],
-                                  dict((ph, {}) for ph in spec['phases']),
-                                  base=classes[spec['base']] if spec.get('base') else None, hooks=spec.get('hooks', 'method'))
+        classes[t] = make_mw_type('C03' + t, spec['unique'], spec['reorderable'], type_funcs(cfg, t),
+                                  base=classes[spec['base']] if spec.get('base') else None, hooks=spec.get('hooks', 'method'),
+                                  static_name=('sh:' + t) if spec.get('hooks') == 'static' else None)
     outer, sub, route = instances(cfg)
+    one = {}
 
     def objs(lst):
-        return [classes[m['type']](m['name']) for m in lst]
-    ep = make_function('EP', False, default_value=cfg['ep_returns'], bound=False)
+        out = []
+        for m in lst:
+            if cfg['types'][m['type']].get('shared'):
+                if m['type'] not in one:
+                    one[m['type']] = classes[m['type']](m['name'])
+                out.append(one[m['type']])
+            else:
+                out.append(classes[m['type']](m['name']))
+        return out
+    w = cfg.get('wiring') or {}
+    ep = make_function('EP', False, params_opt=([w['name']] if w.get('ep') else []), default_value=cfg['ep_returns'], bound=False)
     rn = make_function('RN', False, params_req=('context',), default_value='resp', bound=False) if cfg['has_render'] else None
     rt = Route('/x', ep, rn, middlewares=objs(route))
     rt2 = Route('/y', ep, rn)        # bound after /x, no middlewares of its own
@@ -109,7 +168,8 @@ class C03(Check):
     level_text = ('For each generated stack the single-fault space (<= 17 layers x 4 behaviours) is enumerated '
                   'completely and compared, event by event, with a reference interpreter; stacks are sampled by seed.')
     level_note = 'Trusted: the reference onion interpreter (written from the property text, ~90 lines).'
-    required_probes = ('non-response-value-through-layers', 'unique-type-twice-in-route-list', 'subclass-and-base-in-one-stack', 'closure-hooks', 'second-route-without-own-middlewares', 'render-skipped-for-response', 'no-render-layers-ran', 'unique-deduped', 'three-levels',
+    required_probes = ('same-hook-at-two-positions:static', 'same-hook-at-two-positions:one-instance', 'declared-name-provided-further-in', 'declared-name-offered',
+                       'non-response-value-through-layers', 'unique-type-twice-in-route-list', 'subclass-and-base-in-one-stack', 'closure-hooks', 'second-route-without-own-middlewares', 'render-skipped-for-response', 'no-render-layers-ran', 'unique-deduped', 'three-levels',
                        'swallow-fired', 'double-fault')
 
     def gen_config(self, rng):
@@ -123,6 +183,11 @@ class C03(Check):
                                  'base': ('T%d' % rng.randrange(i)) if (i and rng.random() < 0.35) else None,
                                  # hooks as plain functions from one factory (same __name__/__module__ on every instance)
                                  'hooks': 'closure' if rng.random() < 0.3 else 'method'}
+            r = rng.random()
+            if not u and r < 0.3:
+                types['T%d' % i]['shared'] = True       # ONE instance of it, listed at every position the type takes
+            elif not u and r < 0.45:
+                types['T%d' % i]['hooks'] = 'static'
             if types['T%d' % i]['base']:
                 parent = types[types['T%d' % i]['base']]
                 types['T%d' % i]['phases'] = [ph for ph in PHASES if ph in phases or ph in parent['phases']]
@@ -148,7 +213,18 @@ class C03(Check):
         if dup_ok and rng.random() < 0.3:
             # the route lists a unique type twice: it still appears once in the chain
             route.insert(rng.randrange(len(route) + 1), rng.choice(dup_ok))
-        return {'types': types, 'outer': outer, 'sub': sub, 'route': route,
+        wiring = None
+        provs = [t for t in keys if types[t]['unique'] and 'request' in types[t]['phases']]
+        if provs and rng.random() < 0.45:
+            # one type provides a name; types that provide nothing declare it with a default -- wherever they sit:
+            # outside the provider nobody offers the name yet, so they get their own default there
+            pt = rng.choice(provs)
+            cons = {}
+            for t in keys:
+                if t != pt and rng.random() < 0.6:
+                    cons[t] = [ph for ph in types[t]['phases'] if rng.random() < 0.7]
+            wiring = {'name': 'u1', 'provider': pt, 'consumers': cons, 'ep': rng.random() < 0.5}
+        return {'types': types, 'outer': outer, 'sub': sub, 'route': route, 'wiring': wiring,
                 'ep_returns': rng.choice(['dict', 'dict', 'resp', 'baseresp']), 'has_render': rng.random() < 0.8}
 
     def generate(self, seed, tier):
@@ -211,6 +287,10 @@ class C03(Check):
             res.probe('subclass-and-base-in-one-stack')
         if any(cfg['types'][t].get('hooks') == 'closure' for t in used):
             res.probe('closure-hooks')
+        names = [m['name'] for m in order]
+        for m in order:
+            if names.count(m['name']) > 1:
+                res.probe('same-hook-at-two-positions:' + ('static' if cfg['types'][m['type']].get('hooks') == 'static' else 'one-instance'))
         shape = '%d/%s/%d|%s|%s' % (len(cfg['outer']), len(cfg['sub']) if cfg.get('sub') is not None else '-',
                                     len(cfg['route']), cfg['ep_returns'], cfg['has_render'])
         for step, op in enumerate(plan['ops']):
@@ -246,6 +326,25 @@ class C03(Check):
             if ex.escaped is not None:
                 res.violate(K + 'exception-escaped:%s' % type(ex.escaped).__name__, 'step %d faults %s: %r' % (step, faults, ex.escaped), step)
                 break
+            wexp = wiring_expectation(cfg, target) if cfg.get('wiring') else {}
+            if wexp and got_trace == exp_trace:
+                seen = {}
+                for fname, kwargs in RT.calls.get(step, []):
+                    if 'u1' in kwargs:
+                        seen.setdefault(fname, []).append(kwargs['u1'])
+                for fname, vals in sorted(seen.items()):
+                    for k, v in enumerate(vals):
+                        e = wexp.get(fname, [])[k] if k < len(wexp.get(fname, [])) else None
+                        ok = (v is DEFAULT) if e == 'default' else (v == ('prov', step, e + '.request', 'u1'))
+                        res.probe('declared-name-provided-further-in' if e == 'default' and any(x != 'default' for l in wexp.values() for x in l)
+                                  else 'declared-name-offered')
+                        if e is None or not ok:
+                            res.violate(K + 'layer-argument:%s' % ('default-expected' if e == 'default' else 'provided-expected'),
+                                        'step %d: %s call %d got %r for the provided name, expected %s\nconfig %s'
+                                        % (step, fname, k, v, e, canon(cfg)), step)
+                            break
+                if res.violations:
+                    break
             if got_trace != exp_trace:
                 i = 0
                 while i < min(len(got_trace), len(exp_trace)) and got_trace[i] == exp_trace[i]:
